@@ -394,7 +394,10 @@ func (r *allocRun) doAlloc() {
 	idx, inside, aligned := p.Locate(v)
 	if !inside || !aligned {
 		r.viol("C05", "alloc-not-a-block", "Allocate returned %s: inside pool=%v aligned=%v", ipnetStr(got), inside, aligned)
-		return
+		if !inside {
+			return
+		}
+		// not a block base, but it lies in block idx: that block is what was handed out (C04 still applies)
 	}
 	ones, bits := got.Mask.Size()
 	if p.V4 {
